@@ -122,7 +122,7 @@ class C11(Prop):
     floors = {'quick': (200, 60), 'thorough': (4000, 1000)}
     must_reach = []
     quick_cases = 1200
-    thorough_cases = 150000
+    thorough_cases = 500000
 
     def shrinkable(self, case):
         return False
